@@ -12,7 +12,7 @@ func init() {
 	register(&propDef{
 		id: "C14", title: "Behavior switching follows stack semantics",
 		technique: "effect-signature conformance: the ordered stack operations on each path of the four behaviour setters are compared with the table transcribed from the property; lockset; delegation 1:1; single Peek per message",
-		explanation: "Decides that the code implements the stack model operation by operation: Become = ⟨Reset, Push(b)⟩, BecomeStacked = ⟨Push(b)⟩, UnBecomeStacked = ⟨Pop⟩ only when more than the base behaviour is stacked, UnBecome = ⟨Reset, Push(default Receive)⟩ (so stacked behaviours are cleared); each runs under fieldsLocker; the public ReceiveContext methods delegate one-to-one to these; a new PID starts with exactly the default behaviour; handleReceived reads the current behaviour exactly once before invoking it, so the message being handled finishes under the behaviour that started it; the stack's fields are touched only by its own methods through sync/atomic.",
+		explanation: "Decides that the code implements the stack model operation by operation: Become = ⟨Reset, Push(b)⟩, BecomeStacked = ⟨Push(b)⟩, UnBecomeStacked = ⟨Pop⟩ only when more than the base behaviour is stacked, UnBecome = ⟨Reset, Push(default Receive)⟩ (so stacked behaviours are cleared); each runs under fieldsLocker; the public ReceiveContext methods delegate one-to-one to these; a new PID starts with exactly the default behaviour; handleReceived reads the current behaviour exactly once before invoking it, so the message being handled finishes under the behaviour that started it; the stack's fields are touched only by its own methods through sync/atomic. Added after the probe round: every method of behaviorStack that changes top also updates the length counter on every path after the change (Push/Pop on the CAS-success edge, Reset).",
 		assumptions: []string{"the lock-free stack implementation itself is linearizable", "behaviour over arbitrary call sequences follows from the per-operation effects (stack model composition)"},
 		minObl:     30,
 		run:        runC14,
